@@ -5,11 +5,26 @@ use crate::serializer::SerializationContext;
 use crate::{BinaryDeserializer, BinarySerializer, Error, Result};
 use bigdecimal::FromPrimitive;
 use chrono::{
-    DateTime, FixedOffset, Local, Month, NaiveDate, NaiveDateTime, NaiveTime, TimeZone, Timelike,
-    Utc, Weekday,
+    DateTime, FixedOffset, Local, Month, NaiveDate, NaiveDateTime, NaiveTime, Offset, TimeZone,
+    Timelike, Utc, Weekday,
 };
 use chrono_tz::{OffsetName, Tz};
 use std::str::FromStr;
+
+/// The local date-time the format stores. At the ends of chrono's range the offset can push it
+/// outside of what `NaiveDateTime` represents (`DateTime::naive_local` panics there).
+fn naive_local_checked<Z: TimeZone>(value: &DateTime<Z>) -> Result<NaiveDateTime> {
+    value
+        .naive_utc()
+        .checked_add_offset(value.offset().fix())
+        .ok_or_else(|| {
+            Error::InvalidTimeZone(format!(
+                "local time of {} is out of range at offset {}",
+                value.naive_utc(),
+                value.offset().fix()
+            ))
+        })
+}
 
 impl BinarySerializer for Weekday {
     fn serialize<Output: BinaryOutput>(
@@ -210,8 +225,7 @@ impl BinarySerializer for DateTime<Local> {
         &self,
         context: &mut SerializationContext<Output>,
     ) -> Result<()> {
-        self.date_naive().serialize(context)?;
-        self.time().serialize(context)?;
+        naive_local_checked(self)?.serialize(context)?;
         Ok(())
     }
 }
@@ -232,7 +246,7 @@ impl BinarySerializer for DateTime<FixedOffset> {
         &self,
         context: &mut SerializationContext<Output>,
     ) -> Result<()> {
-        self.naive_local().serialize(context)?;
+        naive_local_checked(self)?.serialize(context)?;
         self.offset().serialize(context)?;
         Ok(())
     }
